@@ -108,6 +108,199 @@ def _event(R, rec, w):
             rec.call("nbassign", [L.gen_bits(R, ow)])
 
 
+# --------------------------------------------------------------------------------------
+# operation sequences over several live objects (object identity: fresh results, frame)
+# --------------------------------------------------------------------------------------
+
+CMP_OPS = ["eq", "ne", "lt", "le", "gt", "ge"]
+NVARS = 5
+
+
+def _heap_event(R, rec, w, pend, log):
+    """One call on the live objects of `rec`.  Results are bound to variables and later operands /
+    mutation targets are mostly RESULTS of earlier calls.  pend: variables with a pending <<= value;
+    log: (op, args maker) of earlier pure calls for re-running them."""
+    n = rec.nvars
+    V = list(range(1, n + 1))
+
+    def width(i):
+        return rec.var(i).nbits
+
+    def val(i):
+        return int(rec.var(i))
+
+    def pick(pred=None, prefer_results=True):
+        c = [i for i in V if pred is None or pred(i)]
+        if not c:
+            return None
+        r = [i for i in c if i > 1]
+        return R.choice(r) if r and prefer_results and R.random() < 0.75 else R.choice(c)
+
+    def dest(p=0.75):
+        if R.random() >= p:
+            return 0
+        if n < NVARS and (n < 2 or R.random() < 0.6):
+            return n + 1
+        return R.randint(2, n) if n >= 2 else n + 1
+
+    def partner(a, same=0.7):
+        """second operand for the object of variable a: another live object of its width, or a literal"""
+        wa = width(a)
+        c = [i for i in V if width(i) == wa]
+        k = R.random()
+        if k < same and c:
+            return rec.obj_arg(R.choice(c))
+        if k < 0.85:
+            return L.enc_bits(wa, R.choice([val(a), L.gen_value(R, wa)]))
+        return L.enc_int(R.choice([val(a), L.gen_value(R, wa), 0, 1]))
+
+    def fit_int(t):
+        wt = width(t)
+        return R.choice([0, 1, val(t) ^ 1, (1 << wt) - 1, L.gen_value(R, wt), -1, val(t)]) if wt > 1 else \
+            R.choice([0, 1, 1 - val(t), 1 - val(t), -1])
+
+    c = R.random()
+    if c < 0.26:                                    # binary operator between live objects
+        a = pick()
+        op = R.choice(CMP_OPS) if R.random() < 0.45 else R.choice(FWD_OPS)
+        if op in ("lshift", "rshift"):
+            y = L.enc_int(L.gen_shift_amount(R, width(a)) % (width(a) + 2)) if R.random() < 0.6 else partner(a)
+        else:
+            y = partner(a)
+        yv = L.obj_value(y) if y["k"] == "obj" else L.dec_value(y)
+        rid = dest()
+        if op in ("floordiv", "mod") and yv == 0:
+            rid = 0                                 # outside the statement: any outcome, nothing is kept
+        ip = R.random() < 0.15
+        rec.call(op, [rec.obj_arg(a), y], rid=rid, ip=ip)
+        log.append((op, a, y if y["k"] != "obj" else y["id"]))
+    elif c < 0.36:                                  # comparison with an int / a literal of the same value
+        a = pick()
+        op = R.choice(CMP_OPS)
+        v = R.choice([val(a), val(a), 0, (1 << width(a)) - 1, L.gen_value(R, width(a))])
+        refl = R.random() < 0.3
+        y = L.enc_int(v) if refl or R.random() < 0.5 else L.enc_bits(width(a), v)
+        rec.call(op, [rec.obj_arg(a), y], refl=refl, rid=dest(0.85))
+    elif c < 0.56:                                  # modify one object in place (mostly a RESULT)
+        t = pick()
+        if pend and R.random() < 0.3:
+            t = R.choice(sorted(pend))
+        wt = width(t)
+        k = R.random()
+        if t in pend and k < 0.45:
+            rec.call("flip", [], tgt=t)
+        elif k < 0.40:
+            rec.call("assign", [L.enc_int(fit_int(t))], tgt=t)
+        elif k < 0.55:
+            s_ = pick(lambda i: width(i) == wt and i != t, False)
+            rec.call("assign", [rec.obj_arg(s_) if s_ else L.gen_bits(R, wt)], tgt=t)
+        elif k < 0.72:
+            s_ = pick(lambda i: width(i) == wt and i != t, False)
+            v = rec.obj_arg(s_) if s_ and R.random() < 0.5 else L.enc_int(fit_int(t))
+            e = rec.call("nbassign", [v], tgt=t)
+            if e["out"]["k"] != "err":
+                pend.add(t)
+        elif k < 0.86:
+            i = R.randrange(wt) if R.random() < 0.9 else L.gen_index(R, wt)
+            b = (val(t) >> i) & 1 if 0 <= i < wt else 0
+            s_ = pick(lambda j: width(j) == 1 and j != t, False)
+            v = rec.obj_arg(s_) if s_ and R.random() < 0.4 else \
+                L.enc_int(1 - b) if R.random() < 0.7 else L.enc_bits(1, 1 - b)
+            rec.call("setbit", [i, v], tgt=t)
+        else:
+            lo = R.randrange(wt)
+            hi = R.randint(lo + 1, wt)
+            s_ = pick(lambda j: width(j) == hi - lo and j != t, False)
+            v = rec.obj_arg(s_) if s_ and R.random() < 0.5 else L.gen_bits(R, hi - lo)
+            rec.call("setslice", [L.idx(lo), L.idx(hi), [], v], tgt=t)
+    elif c < 0.68:                                  # reading bits returns a new object too
+        a = pick()
+        wa = width(a)
+        if R.random() < 0.35:
+            rec.call("getbit", [rec.obj_arg(a), R.randrange(wa) if R.random() < 0.9 else L.gen_index(R, wa)],
+                     rid=dest(0.85))
+        else:
+            k = R.random()
+            if k < 0.3:
+                lo, hi = R.choice([(0, wa), (None, None), (0, None), (None, wa)])       # the whole object
+            elif k < 0.9:
+                lo = R.randrange(wa)
+                hi = R.randint(lo + 1, wa)
+            else:
+                lo, hi = L.gen_bounds(R, wa)
+            rec.call("getslice", [rec.obj_arg(a), L.idx(lo), L.idx(hi), []], rid=dest(0.85))
+    elif c < 0.80:                                  # copies
+        a = pick()
+        k = R.random()
+        if k < 0.3:
+            rec.call("clone", [rec.obj_arg(a)], rid=dest(0.9))
+        elif k < 0.5:
+            rec.call("deepcopy", [rec.obj_arg(a)], rid=dest(0.9))
+        elif k < 0.7:
+            rec.call("invert", [rec.obj_arg(a)], rid=dest(0.9))
+        elif k < 0.92:
+            r = dest(0.95) or 1
+            e = rec.call("new", [width(a), rec.obj_arg(a), R.random() < 0.2], rid=r)
+            if e["out"]["k"] != "err":
+                pend.discard(r)
+        else:
+            r = dest(0.95) or 1
+            nw = R.choice([w, 1, 2, R.choice(L.WIDTHS), R.randint(1, 1023)])            # mk_bits / BitsN of any width
+            e = rec.call("new", [nw, L.enc_int(L.gen_assign_int(R, nw)), R.random() < 0.2], rid=r)
+            if e["out"]["k"] != "err":
+                pend.discard(r)
+    elif c < 0.92:                                  # helpers
+        a = pick()
+        wa = width(a)
+        k = R.random()
+        if k < 0.3:
+            b = pick(None, False)
+            xs = [rec.obj_arg(a), rec.obj_arg(b)] if wa + width(b) <= 1023 else [rec.obj_arg(a)]
+            if R.random() < 0.15:
+                xs = [rec.obj_arg(a)]                # concat of one operand: must still be a new object
+            rec.call("concat", xs, rid=dest(0.85))
+        elif k < 0.75:
+            op = R.choice(["zext", "sext", "trunc"])
+            if R.random() < 0.4:
+                nn = wa                             # same width: the helper must still copy
+            elif op == "trunc":
+                nn = R.randint(1, wa)
+            else:
+                nn = R.choice([min(1023, wa + 1), min(1023, 2 * wa), R.randint(wa, 1023)])
+            rec.call(op, [rec.obj_arg(a), nn], rid=dest(0.85))
+        else:
+            rec.call(R.choice(["reduce_and", "reduce_or", "reduce_xor"]), [rec.obj_arg(a)], rid=dest(0.85))
+    else:                                           # run an earlier operation again on the (modified) operands
+        if not log:
+            return
+        op, a, y = R.choice(log)
+        if a > n or (isinstance(y, int) and y > n):
+            return
+        yy = rec.obj_arg(y) if isinstance(y, int) else y
+        yv = L.obj_value(yy) if yy["k"] == "obj" else L.dec_value(yy)
+        rid = dest()
+        if op in ("floordiv", "mod") and yv == 0:
+            rid = 0
+        rec.call(op, [rec.obj_arg(a), yy], rid=rid)
+    for e in rec.ev[-1:]:
+        if e.get("rid"):
+            pend.discard(e["rid"])                  # a new object has no pending value
+
+
+def _gen_heap_traces(ntraces_per_w, nev):
+    R = common.rng("c04-heap-traces")
+    traces = []
+    for w in L.WIDTHS:
+        for t in range(ntraces_per_w):
+            rec = L.Recorder(w, L.STYLES[(t + w) % 3], heap=True)
+            rec.call("assign", [L.enc_int(L.gen_value(R, w))])
+            pend, log = set(), []
+            for _ in range(nev):
+                _heap_event(R, rec, w, pend, log)
+            traces.append(rec.trace())
+    return traces
+
+
 def _gen_traces(ntraces_per_w, nev):
     R = common.rng("c04-traces")
     traces = []
